@@ -6,6 +6,7 @@
    in nibbles (Go counts bits; every position it uses is a multiple of 4).
    No proofs in this file. *)
 From Slim Require Import Base Keys.
+From SlimGen Require Gen_Consts.
 
 (* ---- options (trie/slimtrie.go: Opt, normalizeOpt) ---- *)
 Record raw_opt := { r_dedup : option bool; r_inner : option bool;
@@ -22,8 +23,8 @@ Definition normalize (r : raw_opt) : opts :=
   end.
 
 (* ---- constants (regenerated into Gen_Consts.v and compared, see tools/genconsts) ---- *)
-Definition big_threshold : nat := 10.       (* prefCnt > 10 *)
-Definition max_step : N := 65535%N.         (* 16-bit step, unit 4 bits *)
+Definition big_threshold : nat := N.to_nat Gen_Consts.g_bigThreshold.   (* prefCnt > 10 *)
+Definition max_step : N := Gen_Consts.g_stepLimit.                      (* 16-bit step, unit 4 bits *)
 
 (* ---- the tree ---- *)
 Inductive tree :=
